@@ -25,7 +25,7 @@ MODES_BY_PROP = {
     "C06": ["plain", "busy", "local", "plain", "busy", "local", "faults", "batchfaults", "flaky", "resubmit"],
     "C09": ["plain", "busy", "cancel"], "C11": ["faults", "faults", "faults", "nodefaults"],
     "C12": ["batchfaults", "batchfaults", "batchfaults", "nodefaults", "flaky"], "C14": ["cancel"],
-    "C16": ["hooks", "hooks", "hookslocal", "flaky"], "C13": ["resubmit"], "C07": ["resubmit"], "C08": ["plain", "busy"],
+    "C16": ["hooks", "hooks", "hookslocal", "flaky", "flaky"], "C13": ["resubmit"], "C07": ["resubmit"], "C08": ["plain", "busy"],
 }
 # modes added to a property's list on top of its original ones: the original modes keep their number of cases
 ADDED_MODES = {"C01": ("resubmit",), "C02": ("resubmit", "nodefaults"), "C06": ("faults", "batchfaults", "flaky", "resubmit"),
@@ -210,7 +210,7 @@ def gen_scenario(rng, mode):
         # completes ... after every job has an outcome"); a stream of its own, the scenarios are otherwise unchanged
         r3 = random.Random("life" + json.dumps(sc, sort_keys=True))
         if r3.random() < .6:
-            sc["lifecycle"] = {k: f"hook {k}" for k in ("setup", "teardown", "node_setup", "node_teardown") if r3.random() < .7}
+            sc["lifecycle"] = {k: f"hook {k}" for k in ("setup", "teardown", "node_setup", "node_teardown") if k == "teardown" or r3.random() < .7}
             sc["hook_rc"] = {k: r3.choice([0, 0, 3]) for k in ("teardown", "node_teardown")}
     if mode in ("local", "hookslocal"):
         sc["local"] = True
